@@ -526,4 +526,11 @@ def rule_f(ctx: Ctx) -> None:
                 'collects every error that strict mode would raise.')
 
 
-RULES = [rule_a, rule_b, rule_c, rule_d, rule_e, rule_f]
+def rule_g(ctx: Ctx) -> None:
+    """A lazy XMLResource is one of the source kinds that must agree with the others: the driver remembers the live ancestor list of
+    the selectors by copy (C20.d body)."""
+    from .c20 import rule_d as live_list
+    live_list(ctx, 'C04.g')
+
+
+RULES = [rule_a, rule_b, rule_c, rule_d, rule_e, rule_f, rule_g]
